@@ -51,6 +51,30 @@ def findL : List Int → Int → Nat × Int
 
 end Reg
 
+/-- where a residue lies on the reverse-complemented record of length `L` -/
+def mirrorPos (L : Int) (p : Pos) : Pos := (L - 1 - p.1, !p.2)
+
+/-- a segment with its head moved outward by `a` (other regions unchanged) -/
+def Reg.extHead (a : Int) : Reg → Reg
+  | seg h t => if t < h then seg (h + a) t else seg (h - a) t
+  | r => r
+
+/-- a segment with its tail moved outward by `b` (other regions unchanged) -/
+def Reg.extTail (b : Int) : Reg → Reg
+  | seg h t => if t < h then seg h (t - b) else seg h (t + b)
+  | r => r
+
+/-- the first element's head moved outward -/
+def Reg.extFirst (a : Int) : List Reg → List Reg
+  | [] => []
+  | r :: rs => extHead a r :: rs
+
+/-- the last element's tail moved outward -/
+def Reg.extLast (b : Int) : List Reg → List Reg
+  | [] => []
+  | [r] => [extTail b r]
+  | r :: r2 :: rs => r :: extLast b (r2 :: rs)
+
 /-- residues `lo .. hi-1` of a denotation -/
 def sliceDen (d : List Pos) (lo hi : Int) : List Pos := (d.drop lo.toNat).take (hi - lo).toNat
 
